@@ -1353,7 +1353,10 @@ inline J plan_c04(uint64_t verif_seed, uint64_t index, int tier) {
         pc.set("circle_tol", tol);
         pc.set("level_class", level == 0 ? 0 : 1);
         ops.push(pc);
-        if (rsch.chance(0.25)) {
+        // (only without circle detection in the first save: a re-loaded circle has off-grid vertices, and
+        // gdstk computes boxes from unrounded coordinates - under a magnifying reference "the truth about the
+        // file" would no longer be exact, the reason why direction 2 uses on-grid models in the first place)
+        if (tol == 0 && rsch.chance(0.4)) {
             // history: the library that is written was itself loaded from a file gdstk wrote under other
             // options; what the second file says about itself must be true of the second file
             J l = op("load_check_oas");
